@@ -871,7 +871,7 @@ class TermBuilder:
         return self._comp(e, at, "list")
 
     def _t_GeneratorExp(self, e, at):
-        return self._comp(e, at, "list")
+        return self._comp(e, at, "gen")
 
     def _t_SetComp(self, e, at):
         return self._comp(e, at, "set")
